@@ -129,6 +129,14 @@ class quantumEngine(pb.Referenceable):
         pass
 
     @abc.abstractmethod
+    def apply_S(self, qubitNum):
+        """
+        Applies a S (phase) gate to the qubits with number qubitNum.
+        :rtype: None
+        """
+        pass
+
+    @abc.abstractmethod
     def apply_X(self, qubitNum):
         """
         Applies a X gate to the qubits with number qubitNum.
